@@ -16,6 +16,7 @@ import (
 	"sort"
 	"strings"
 	"sync"
+	"syscall"
 )
 
 const ModePerm = os.ModePerm
@@ -78,11 +79,71 @@ type Entry struct {
 
 // World is the record of one spool directory.
 type World struct {
-	mu    sync.Mutex
-	Dir   string
-	files map[string]*FState // by base name
-	logs  map[string][]*Entry
-	seq   int
+	mu     sync.Mutex
+	Dir    string
+	files  map[string]*FState // by base name
+	logs   map[string][]*Entry
+	seq    int
+	faults []*fault
+}
+
+// fault: the k-th read-only call `call` ("openM" "readM" "statH" "statB" "openH" "readH" …) on a file of id fails ONCE with
+// errno; every other call (and the same call in any later run on the directory) is served normally: a transient
+// condition of the machine (EMFILE, EIO, EACCES), not a property of the file.
+type fault struct {
+	id, call string
+	k        int
+	errno    syscall.Errno
+	fired    bool
+}
+
+var errnos = map[string]syscall.Errno{"EMFILE": syscall.EMFILE, "EIO": syscall.EIO, "EACCES": syscall.EACCES, "ENFILE": syscall.ENFILE, "EINTR": syscall.EINTR, "ENOMEM": syscall.ENOMEM}
+
+// ErrnoOK tells whether name is an errno InjectFault knows.
+func ErrnoOK(name string) bool { _, ok := errnos[name]; return ok }
+
+// InjectFault arms one transient fault (see fault).  Logged, when it fires, as event "@F:<call>,<k>,<errno>" in front
+// of the record of the failing call.
+func (w *World) InjectFault(id, call string, k int, errno string) {
+	w.mu.Lock()
+	w.faults = append(w.faults, &fault{id: id, call: call, k: k, errno: errnos[errno]})
+	w.mu.Unlock()
+}
+
+// FaultsFired lists the faults that fired, as "<call>,<k>,<errno>" per id.
+func (w *World) FaultsFired(id string) []string {
+	w.mu.Lock()
+	defer w.mu.Unlock()
+	var out []string
+	for _, e := range w.logs[id] {
+		if e.Kind == 'e' && strings.HasPrefix(e.Text, "@F:") {
+			out = append(out, e.Text[3:])
+		}
+	}
+	return out
+}
+
+// faultLocked: is this call the one an armed fault waits for?  (w.mu held)
+func (w *World) faultLocked(id, call string) error {
+	for _, f := range w.faults {
+		if f.fired || f.id != id || f.call != call {
+			continue
+		}
+		f.k--
+		if f.k > 0 {
+			continue
+		}
+		f.fired = true
+		name := ""
+		for n, v := range errnos {
+			if v == f.errno {
+				name = n
+			}
+		}
+		w.addLocked(id, &Entry{Kind: 'e', Text: "@F:" + call + "," + name})
+		return f.errno
+	}
+	return nil
 }
 
 var (
@@ -272,6 +333,9 @@ type File struct {
 	kind string
 	// the file existed and was opened without O_TRUNC: the shadow is re-read after every write
 	reread bool
+	// opened read-only on a registered directory: Read may meet an injected fault
+	rw           *World
+	rid, rkind   string
 }
 
 func (f *File) Seek(offset int64, whence int) (int64, error) { return f.f.Seek(offset, whence) }
@@ -280,7 +344,20 @@ func (f *File) ReadAt(p []byte, off int64) (int, error)      { return f.f.ReadAt
 func (f *File) Fd() uintptr                                  { return f.f.Fd() }
 
 func (f *File) Name() string               { return f.f.Name() }
-func (f *File) Read(p []byte) (int, error) { return f.f.Read(p) }
+func (f *File) Read(p []byte) (int, error) {
+	if f.rw != nil {
+		f.rw.mu.Lock()
+		errno := f.rw.faultLocked(f.rid, "read"+f.rkind)
+		if errno != nil {
+			f.rw.addLocked(f.rid, &Entry{Kind: 'r', Text: "read" + f.rkind, File: f.rkind, Failed: true})
+		}
+		f.rw.mu.Unlock()
+		if errno != nil {
+			return 0, &os.PathError{Op: "read", Path: f.f.Name(), Err: errno}
+		}
+	}
+	return f.f.Read(p)
+}
 func (f *File) Close() error               { return f.f.Close() }
 func (f *File) Stat() (os.FileInfo, error) { return f.f.Stat() }
 
@@ -416,21 +493,43 @@ func Lstat(name string) (os.FileInfo, error) { return Stat(name) }
 
 func Open(name string) (*File, error) {
 	w := worldOf(name)
-	f, err := os.Open(name)
-	if w != nil {
-		id, kind := Split(filepath.Base(name))
-		w.mu.Lock()
-		w.addLocked(id, &Entry{Kind: 'r', Text: "open" + kind, File: kind, Failed: err != nil})
-		w.mu.Unlock()
+	if w == nil {
+		f, err := os.Open(name)
+		if err != nil {
+			return nil, err
+		}
+		return &File{f: f}, nil
 	}
+	id, kind := Split(filepath.Base(name))
+	w.mu.Lock()
+	if errno := w.faultLocked(id, "open"+kind); errno != nil {
+		w.addLocked(id, &Entry{Kind: 'r', Text: "open" + kind, File: kind, Failed: true})
+		w.mu.Unlock()
+		return nil, &os.PathError{Op: "open", Path: name, Err: errno}
+	}
+	w.mu.Unlock()
+	f, err := os.Open(name)
+	w.mu.Lock()
+	w.addLocked(id, &Entry{Kind: 'r', Text: "open" + kind, File: kind, Failed: err != nil})
+	w.mu.Unlock()
 	if err != nil {
 		return nil, err
 	}
-	return &File{f: f}, nil
+	return &File{f: f, rw: w, rid: id, rkind: kind}, nil
 }
 
 func Stat(name string) (os.FileInfo, error) {
 	w := worldOf(name)
+	if w != nil {
+		id, kind := Split(filepath.Base(name))
+		w.mu.Lock()
+		if errno := w.faultLocked(id, "stat"+kind); errno != nil {
+			w.addLocked(id, &Entry{Kind: 'r', Text: "stat" + kind, File: kind, Failed: true})
+			w.mu.Unlock()
+			return nil, &os.PathError{Op: "stat", Path: name, Err: errno}
+		}
+		w.mu.Unlock()
+	}
 	fi, err := os.Stat(name)
 	if w != nil {
 		id, kind := Split(filepath.Base(name))
